@@ -23,6 +23,7 @@ import (
 	"sort"
 	"strconv"
 	"strings"
+	"sync"
 	"syscall"
 	"time"
 
@@ -792,8 +793,21 @@ func sweep(prop, tier, bin string, base int64, cfg tierCfg, workers int, deadlin
 		beat string
 	}
 	var hangs []hangInfo
+	// every worker has a watcher of its own from the start: a stall is timed from the worker's own last heartbeat,
+	// and sixteen workers that all block (a real deadlock in the code under test) are given up after one stall
+	// period, not after sixteen
+	hungW := make([]bool, len(procs))
+	var wwg sync.WaitGroup
 	for w, p := range procs {
-		if p.wait(cfg.HangS) {
+		wwg.Add(1)
+		go func(w int, p *proc) {
+			defer wwg.Done()
+			hungW[w] = p.wait(cfg.HangS)
+		}(w, p)
+	}
+	wwg.Wait()
+	for w, p := range procs {
+		if hungW[w] {
 			hangs = append(hangs, hangInfo{w, p.lastHB})
 		} else if p.err != nil {
 			b, _ := os.ReadFile(p.out + ".stderr")
